@@ -7,17 +7,23 @@ HARNESS_TEST = "TestC19"
 COQ_MODEL = ["C19/Check.v", "Gen/C19Facts.v"]
 COQ_PROOF_DEPS = ["C19/Proofs.v"]
 COQ_OBLIG = ["C19/Property.v", "Gen/C19Oblig.v"]
-CASES_HEADER = "Require Import Nib.C19.Sites Nib.C19.Model Nib.C19.Spec Nib.C19.Check Nib.Gen.C19Facts."
+CASES_HEADER = "From Coq Require Import String.\nFrom Coq Require Import List.\nRequire Import Nib.C19.Sites Nib.C19.Model Nib.C19.Spec Nib.C19.Check Nib.Gen.C19Facts.\nOpen Scope string_scope."
 CASE_TYPE = "case"
-MISMATCH_FN = "mismatch current_sites"
+MISMATCH_FN = "mismatch current_sites current_wiring"
 VIOLATES_FN = "violates"
-RULE = ("cases = 1-3 consecutive blocks of 1-7 ops (eth tx with 0-4 logs, optionally after an inner call frame that emitted 1-3 logs and reverted / two-message eth tx / revert / ante failure / msg-server failure, "
+RULE = ("cases = 1-3 consecutive blocks of 0-7 ops (eth tx with 0-4 logs, optionally after an inner call frame that emitted 1-3 logs and reverted / two-message eth tx / revert / ante failure / msg-server failure, "
         "MsgCreateFunToken, MsgConvertCoinToEvm for coin-born and ERC20-born FunTokens, FunToken.sendToBank precompile calls whose logs include mirrored ABCI events) delivered through BeginBlock/DeliverTx/EndBlock/Commit; "
+        "in half of the cases blocks additionally have 1-3 governance proposals coming due (1-3 FunToken messages each, sender = gov module account: "
+        "MsgCreateFunToken from a bank coin, MsgConvertCoinToEvm coin-born / ERC20-born, 1 in 6 made to fail so that the proposal is rolled back) which "
+        "x/gov's EndBlocker executes in that block - EVM logs emitted outside DeliverTx, some of these blocks have no tx at all; logs in the BeginBlock response are recorded too; "
         "non-trivial = some block holds a FunToken op that emitted logs AND an Ethereum tx with logs after another "
-        "log-emitting op (the shape in which indices can collide); distinct = distinct input")
+        "log-emitting op (the shape in which indices can collide), OR a passed proposal emitted logs at end of block; distinct = distinct input")
 ASSUMPTIONS = [
     "number of logs an ERC20 deploy / mint emits is read from the implementation trace (oracle value), not modelled",
     "EventTxLog / EventEthereumTx / EventBlockBloom as parsed from ABCI events are what clients see",
+    "EndBlocker classification (coq/C19/Sites.v inert_modules): the listed modules' EndBlockers execute no sdk.Msg and make no EVM call; every module not listed (x/gov, unknown ones) is treated as message-executing",
+    "proposals are submitted / deposited / voted at keeper level in a set-up block; the per-message split of a passed proposal's logs is even (the events of its messages arrive merged)",
+    "no BeginBlocker of the tree can execute messages (x/upgrade handlers are compiled in and emit no EventTxLog); the model's BeginBlock phase is exercised by the theorems only, the driver records BeginBlock logs if any appear",
 ]
 
 
@@ -61,27 +67,69 @@ def _split(ops, obs):
         yield o2, b2
 
 
+def _ops(b):
+    return b if isinstance(b, list) else b.get("ops", [])
+
+
+def _gov(b):
+    return [] if isinstance(b, list) else (b.get("gov") or [])
+
+
+_MSGKIND = {"create": "Create", "convert": "ConvCoin", "conv20": "ConvErc20"}
+
+
+def _emit(ok, txidx, logs):
+    return "{| e_ok := %s; e_txidx := %s; e_logs := [%s] |}" % (
+        "true" if ok else "false", _nat_list(txidx), "; ".join("(%d, %d)" % (a, b) for a, b in logs))
+
+
+def _op(kind, out, k):
+    return "{| o_kind := %s; o_out := %s; o_k := %d |}" % (kind, out, k)
+
+
 def to_coq_case(rec):
     blocks = []
-    for ops, bo in zip(rec["input"], rec["obs"]):
+    for blk, bo in zip(rec["input"], rec["obs"]):
         items = []
-        for op, ob in _split(ops, bo["ops"]):
+        for op, ob in _split(_ops(blk), bo["ops"]):
             k = op["k"] if op["kind"] == "eth" else len(ob["logs"])
-            o = "{| o_kind := %s; o_out := %s; o_k := %d |}" % (_kind(op, ob), _out(op, ob), k)
-            e = "{| e_ok := %s; e_txidx := %s; e_logs := [%s] |}" % (
-                "true" if ob["code"] == 0 else "false", _nat_list(ob["txidx"]),
-                "; ".join("(%d, %d)" % (a, b) for a, b in ob["logs"]))
-            items.append("(%s, %s)" % (o, e))
-        blocks.append("([%s], %s)" % ("; ".join(items), "true" if bo["bloom_ok"] else "false"))
+            items.append("(%s, %s)" % (_op(_kind(op, ob), _out(op, ob), k), _emit(ob["code"] == 0, ob["txidx"], ob["logs"])))
+        begin = []
+        if bo.get("begin"):
+            begin.append("(%s, %s)" % (_op("ConvCoin", "Ok", len(bo["begin"])), _emit(True, [], bo["begin"])))
+        props = []
+        for msgs, po in zip(_gov(blk), bo.get("gov", [])):
+            passed = po["result"] == "passed"
+            n, tot = len(msgs), len(po["logs"])
+            ops = []
+            for i, m in enumerate(msgs):
+                k = (tot // n + (1 if i < tot % n else 0)) if passed else 0
+                ops.append(_op(_MSGKIND[m["kind"]], "Ok" if passed else "FailMsg", k))
+            props.append("([%s], %s)" % ("; ".join(ops), _emit(passed, [], po["logs"])))
+        end = []
+        if props:
+            end.append('("gov", [%s])' % "; ".join(props))
+        if bo.get("stray"):
+            # logs in the EndBlock response that no proposal of the input explains: the model has no source for them
+            end.append('("?stray", [([%s], %s)])' % (_op("ConvCoin", "Ok", len(bo["stray"])), _emit(True, [], bo["stray"])))
+        blocks.append("{| ob_begin := [%s]; ob_txs := [%s]; ob_end := [%s]; ob_pubs := %s; ob_bloom_ok := %s |}" % (
+            "; ".join(begin), "; ".join(items), "; ".join(end), _nat_list(bo.get("pubs", [])),
+            "true" if bo["bloom_ok"] else "false"))
     return "[" + "; ".join(blocks) + "]"
 
 
+def _gov_logs(bo):
+    return any(po["result"] == "passed" and po["logs"] for po in bo.get("gov", []))
+
+
 def nontrivial(rec):
-    for ops, bo in zip(rec["input"], rec["obs"]):
+    for blk, bo in zip(rec["input"], rec["obs"]):
+        if _gov_logs(bo):
+            return True
         seen_logs = False
         ft_with_logs = False
         eth_after = False
-        for op, ob in _split(ops, bo["ops"]):
+        for op, ob in _split(_ops(blk), bo["ops"]):
             n = len(ob["logs"])
             if op["kind"] not in ("eth", "s2b") and n > 0:
                 ft_with_logs = True
@@ -96,11 +144,21 @@ def nontrivial(rec):
 
 def classify(rec):
     ks = ["blocks=%d" % len(rec["input"])]
-    for ops, bo in zip(rec["input"], rec["obs"]):
-        for op, ob in zip(ops, bo["ops"]):
+    for blk, bo in zip(rec["input"], rec["obs"]):
+        for op, ob in zip(_ops(blk), bo["ops"]):
             ks.append("op:" + op["kind"] + ("/inner-revert" if op.get("inner") else "") + ("/revert" if op.get("revert") else "") + ("/fail-" + op["fail"] if op.get("fail") else ""))
             ks.append("code:%s" % ("ok" if ob["code"] == 0 else "rejected"))
             ks.append("logs_per_op=%d" % min(len(ob["logs"]), 5))
+        tx_logs = sum(len(ob["logs"]) for ob in bo["ops"])
+        for msgs, po in zip(_gov(blk), bo.get("gov", [])):
+            ks.append("proposal:%s/msgs=%d" % (po["result"], len(msgs)))
+            ks.append("logs_per_proposal=%d" % min(len(po["logs"]), 5))
+            for m in msgs:
+                ks.append("govmsg:" + m["kind"] + ("/fail" if m.get("fail") else ""))
+        if _gov(blk):
+            ks.append("block:endblock-logs" + ("+tx-logs" if tx_logs else "-only") if _gov_logs(bo) else "block:proposals-without-logs")
+        if bo.get("begin"):
+            ks.append("block:beginblock-logs")
     return ks
 
 
@@ -109,12 +167,19 @@ def describe(rec):
 
 
 def signature(rec):
-    kinds = sorted({op["kind"] for ops in rec["input"] for op in ops})
-    return {"kind": "index-collision", "ops": kinds}
+    kinds = sorted({op["kind"] for b in rec["input"] for op in _ops(b)} |
+                   {"gov:" + m["kind"] for b in rec["input"] for p in _gov(b) for m in p})
+    bloom = any((not bo["bloom_ok"]) or bo.get("pubs", [bo["nlogs"]]) != [bo["nlogs"]] for bo in rec.get("obs", []))
+    return {"kind": "bloom-not-union" if bloom else "index-collision", "ops": kinds}
+
+
+def _mk(ops, gov):
+    return {"ops": ops, "gov": gov} if gov else ops
 
 
 def input_size(inp):
-    return sum(len(b) for b in inp) * 10 + sum(op.get("k", 0) for b in inp for op in b)
+    return (sum(len(_ops(b)) for b in inp) * 10 + sum(op.get("k", 0) for b in inp for op in _ops(b)) +
+            sum(10 + 5 * len(p) for b in inp for p in _gov(b)))
 
 
 def shrink_candidates(inp):
@@ -123,18 +188,24 @@ def shrink_candidates(inp):
     if len(inp) > 1:
         for i in range(len(inp)):
             out.append(inp[:i] + inp[i + 1:])
-    # drop an op
-    for bi, b in enumerate(inp):
-        if len(b) > 1:
+    for bi, blk in enumerate(inp):
+        b, g = _ops(blk), _gov(blk)
+        # drop an op
+        if len(b) > 1 or (b and g):
             for i in range(len(b)):
-                nb = b[:i] + b[i + 1:]
-                out.append(inp[:bi] + [nb] + inp[bi + 1:])
-    # fewer logs
-    for bi, b in enumerate(inp):
+                out.append(inp[:bi] + [_mk(b[:i] + b[i + 1:], g)] + inp[bi + 1:])
+        # drop a proposal / a message of a proposal
+        for i in range(len(g)):
+            if len(g) > 1 or b:
+                out.append(inp[:bi] + [_mk(b, g[:i] + g[i + 1:])] + inp[bi + 1:])
+            for j in range(len(g[i])):
+                if len(g[i]) > 1:
+                    out.append(inp[:bi] + [_mk(b, g[:i] + [g[i][:j] + g[i][j + 1:]] + g[i + 1:])] + inp[bi + 1:])
+        # fewer logs
         for i, op in enumerate(b):
             if op["kind"] == "eth" and op["k"] > 1:
                 nop = dict(op, k=op["k"] - 1)
-                out.append(inp[:bi] + [b[:i] + [nop] + b[i + 1:]] + inp[bi + 1:])
+                out.append(inp[:bi] + [_mk(b[:i] + [nop] + b[i + 1:], g)] + inp[bi + 1:])
     return out
 
 
@@ -144,7 +215,8 @@ def model_search(chk):
     import os
     wd = os.path.join(chk.BUILD, "run", ID)
     path = os.path.join(wd, "sweep_C19.v")
-    open(path, "w").write("""From Coq Require Import List Arith. Import ListNotations.
+    open(path, "w").write("""From Coq Require Import String.
+From Coq Require Import List Arith Bool. Import ListNotations.
 Require Import Nib.C19.Sites Nib.C19.Model Nib.C19.Spec Nib.C19.Proofs Nib.Gen.C19Facts.
 Set Printing Width 1000000. Set Printing Depth 1000000.
 Definition alphabet : list op := [mkop Eth Ok 1; mkop Eth Ok 2; mkop Eth Revert 1; mkop Create Ok 1; mkop ConvCoin Ok 1].
@@ -156,43 +228,63 @@ Definition code (o : op) : nat :=
 Definition bad := Eval vm_compute in
   firstn 8 (map (map code) (filter (fun ops => negb (Pb (snd (run_block current_sites ops)))) (lists 4))).
 Print bad.
+(* whole blocks: txs + proposals executed by x/gov at end of block, under the regenerated EndBlocker order *)
+Definition govs : list (list proposal) := [[[mkop Create Ok 1]]; [[mkop Create Ok 1; mkop ConvCoin Ok 1]]; [[mkop Create Ok 1]; [mkop ConvCoin Ok 1]]].
+Definition full_ok (ops : list op) (g : list proposal) : bool :=
+  let r := run_full current_sites current_wiring {| b_begin := []; b_txs := ops; b_end := [("gov"%string, g)] |} in
+  Pb (r_emits r) && list_eqb (map (@length _) (r_pubs r)) [length (all_logs (r_emits r))].
+Definition badfull := Eval vm_compute in
+  firstn 6 (flat_map (fun ops => flat_map (fun gi => if full_ok ops (nth gi govs []) then [] else [gi :: map code ops]) (seq 0 3)) (lists 2)).
+Print badfull.
 """)
     rc, out, _ = chk.coqc(path)
     if rc != 0:
         return []
     import re
-    m = re.search(r"bad\s*=\s*(\[.*\])\s*:", out, re.S)
-    if not m:
-        return []
-    body = m.group(1)
+    OPS = {1: {"kind": "eth", "k": 1, "revert": False, "fail": "", "sender": 0},
+           2: {"kind": "eth", "k": 2, "revert": False, "fail": "", "sender": 0},
+           3: {"kind": "eth", "k": 1, "revert": True, "fail": "", "sender": 0},
+           4: {"kind": "create", "k": 0, "revert": False, "fail": "", "sender": 0},
+           5: {"kind": "convert", "k": 0, "revert": False, "fail": "", "sender": 0}}
+    m = re.search(r"bad\s*=\s*(\[.*?\])\s*:", out, re.S)
+    body = m.group(1) if m else ""
     res = []
     for grp in re.findall(r"\[([0-9; ]+)\]", body):
         ops = []
         for c in [int(x) for x in grp.split(";") if x.strip()]:
-            ops.append({1: {"kind": "eth", "k": 1, "revert": False, "fail": "", "sender": 0},
-                        2: {"kind": "eth", "k": 2, "revert": False, "fail": "", "sender": 0},
-                        3: {"kind": "eth", "k": 1, "revert": True, "fail": "", "sender": 0},
-                        4: {"kind": "create", "k": 0, "revert": False, "fail": "", "sender": 0},
-                        5: {"kind": "convert", "k": 0, "revert": False, "fail": "", "sender": 0}}[c])
+            ops.append(dict(OPS[c]))
         # a convert needs a funtoken: prepend a create in an earlier block
         res.append([[{"kind": "create", "k": 0, "revert": False, "fail": "", "sender": 0}], ops])
+    m2 = re.search(r"badfull\s*=\s*(\[.*?\])\s*:", out, re.S)
+    govs = [[[{"kind": "create"}]], [[{"kind": "create"}, {"kind": "convert"}]], [[{"kind": "create"}], [{"kind": "convert"}]]]
+    if m2:
+        for grp in re.findall(r"\[([0-9; ]+)\]", m2.group(1)):
+            cs = [int(x) for x in grp.split(";") if x.strip()]
+            ops = [OPS[c] for c in cs[1:]]
+            gov = [[dict(m, fail=False, sender=0) for m in p] for p in govs[cs[0]]]
+            res.append([[dict(OPS[4])], {"ops": ops, "gov": gov}])
     return res
 
 MANIFEST = {
     "level_claimed": {
         "category": "proof",
-        "text": ("Coq theorems C19_indices_consecutive / C19_bloom_is_union / C19_reverted_contribute_nothing / "
-                 "C19_every_block_of_a_history: for EVERY block composition (any ops, order, multiplicity, any number of "
-                 "blocks) the model of the transient index bookkeeping publishes tx indices 0..M-1, log indices 0..N-1 in "
-                 "emission order, eth logs carrying their tx index, and a bloom folding in exactly the emitted logs. The "
-                 "model's call-site parameters (base index each updateBlockBloom site passes, AddLog/TxConfig formulas) are "
-                 "re-extracted from /repo on every run (Gen/C19Facts.v) and the instantiated theorem "
-                 "C19_holds_for_current_tree is re-checked; the model is additionally run against real "
-                 "BeginBlock/DeliverTx/EndBlock/Commit traces and the proved-sound checker Pb is evaluated on those traces."),
+        "text": ("Coq theorems C19_indices_consecutive / C19_bloom_is_union / C19_bloom_union_iff_order / C19_reverted_contribute_nothing / "
+                 "C19_failed_proposal_contributes_nothing / C19_every_block_of_a_history: for EVERY block (messages executed in BeginBlock, delivered "
+                 "txs, proposals executed by message-executing EndBlockers; any ops, order, multiplicity, any number of blocks) the model of the "
+                 "transient index bookkeeping publishes tx indices 0..M-1, log indices 0..N-1 in emission order across all phases, eth logs carrying "
+                 "their tx index; and exactly one bloom folding in exactly the logs of the block IF AND ONLY IF the EndBlocker order fact holds "
+                 "(x/evm's EndBlocker runs after every EndBlocker that is not known to be inert). The model's parameters — base index each "
+                 "updateBlockBloom site passes, AddLog/TxConfig formulas, and the EndBlockers order of app/app_config.go — are re-extracted from /repo "
+                 "on every run (Gen/C19Facts.v) and the instantiated theorems C19_current_sites_ok / C19_current_wiring_ok / "
+                 "C19_holds_for_current_tree are re-checked; the model is additionally run against real BeginBlock/DeliverTx/EndBlock/Commit traces "
+                 "including blocks in which x/gov executes passed proposals carrying FunToken messages, and the proved-sound checker Pobs_b is "
+                 "evaluated on those traces."),
         "design_ref": "DESIGN.md §5 C19",
     },
-    "level_note": ("Trusted: Coq kernel + vm_compute; the go/ast extractor harness/gen/c19.go (textual normal forms of 4 call "
-                   "sites + 4 formulas); the Go driver's event parsing; log counts of ERC20 deploy/mint are taken from the "
-                   "trace. Not modelled: the geth interpreter, the ERC20 contracts, all four call sites are driven by the harness."),
-    "technique": "Coq proof (induction over op lists) over generated call-site facts + differential correspondence on ABCI traces",
+    "level_note": ("Trusted: Coq kernel + vm_compute; the go/ast extractor harness/gen/c19 (textual normal forms of 4 call "
+                   "sites + 4 formulas; EndBlockers list resolved to module names, external packages through a table); the table of inert "
+                   "EndBlockers in coq/C19/Sites.v; the Go driver's event parsing; log counts of ERC20 deploy/mint are taken from the "
+                   "trace. Not modelled: the geth interpreter, the ERC20 contracts, tally / deposits of x/gov (proposals are set up at keeper level). "
+                   "All four call sites are driven by the harness, in DeliverTx and in EndBlock. The BeginBlock phase has no driver (no BeginBlocker of the tree can execute messages)."),
+    "technique": "Coq proof (induction over op lists / EndBlocker order) over generated call-site and wiring facts + differential correspondence on ABCI traces",
 }
